@@ -117,6 +117,7 @@ mainloop:
 		case err := <-c.lc.ShutdownRequest():
 
 			c.log.Debugf("shutdown request: %v", err)
+			verifTrace(c, "ctl.stopping", err)
 			c.lc.ShutdownInitiated(err)
 			break mainloop
 
@@ -124,6 +125,7 @@ mainloop:
 
 			err := c.lister.Error()
 			c.log.Debugf("lister complete: %v", err)
+			verifTrace(c, "ctl.stopping", err)
 			c.lc.ShutdownInitiated(errors.Wrap(err, "lister complete"))
 			break mainloop
 
@@ -131,6 +133,7 @@ mainloop:
 
 			err := c.watcher.Error()
 			c.log.Debugf("watcher complete: %v", err)
+			verifTrace(c, "ctl.stopping", err)
 			c.lc.ShutdownInitiated(errors.Wrap(err, "watcher complete"))
 			break mainloop
 
@@ -138,13 +141,16 @@ mainloop:
 
 			err := c.cache.Error()
 			c.log.Debugf("cache complete: %v", err)
+			verifTrace(c, "ctl.stopping", err)
 			c.lc.ShutdownInitiated(errors.Wrap(err, "cache complete"))
 			break mainloop
 
 		case result := <-c.lister.Result():
+			verifTrace(c, "ctl.list", result.list, result.err)
 
 			if result.err != nil {
 				c.log.Errorf("lister error: %v", result.err)
+				verifTrace(c, "ctl.stopping", result.err)
 				c.lc.ShutdownInitiated(errors.Wrap(result.err, "lister result"))
 				break mainloop
 			}
@@ -152,6 +158,7 @@ mainloop:
 			version, err := listResourceVersion(result.list)
 			if err != nil {
 				c.log.Errorf("resource version error: %v", err)
+				verifTrace(c, "ctl.stopping", err)
 				c.lc.ShutdownInitiated(errors.Wrap(err, "listing resource version"))
 				break mainloop
 			}
@@ -161,6 +168,7 @@ mainloop:
 			list, err := extractList(result.list)
 			if err != nil {
 				c.log.Errorf("extract list error: %v", err)
+				verifTrace(c, "ctl.stopping", err)
 				c.lc.ShutdownInitiated(errors.Wrap(err, "extracting list"))
 				break mainloop
 			}
@@ -168,36 +176,44 @@ mainloop:
 			events, err := c.cache.sync(list)
 			if err != nil {
 				c.log.Errorf("cache sync error: %v", err)
+				verifTrace(c, "ctl.stopping", err)
 				c.lc.ShutdownInitiated(err)
 				break mainloop
 			}
 
+			verifTrace(c, "ctl.synced", version, list, events, initialized)
 			c.log.Debugf("list complete: version: %v, items: %v, events: %v",
 				version, len(list), len(events))
 
 			if !initialized {
 				c.log.Debugf("ready")
 				initialized = true
+				verifTrace(c, "ctl.ready")
 				close(c.readych)
 			} else {
 				c.distributeEvents(events)
 			}
 
+			verifTrace(c, "ctl.distributed", version)
 			if err := c.watcher.reset(version); err != nil {
 				c.log.Errorf("watcher reset error: %v", err)
+				verifTrace(c, "ctl.stopping", err)
 				c.lc.ShutdownInitiated(errors.Wrap(err, "watcher reset"))
 				break mainloop
 			}
 
 		case evt := <-c.watcher.events():
+			verifTrace(c, "ctl.event", evt)
 			c.log.Debugf("update event: %v", evt)
 
 			events, err := c.cache.update(evt)
 			if err != nil {
 				c.log.Errorf("update event: cache update error %v", err)
+				verifTrace(c, "ctl.stopping", err)
 				c.lc.ShutdownInitiated(errors.Wrap(err, "updating cache"))
 				break mainloop
 			}
+			verifTrace(c, "ctl.updated", evt, events)
 			c.distributeEvents(events)
 		}
 	}
@@ -205,6 +221,7 @@ mainloop:
 	<-c.cache.Done()
 	<-c.watcher.Done()
 	<-c.lister.Done()
+	verifTrace(c, "ctl.done")
 }
 
 func (c *controller) distributeEvents(events []Event) {
